@@ -237,6 +237,16 @@ MUTANTS = [
     ('C15', 'conditional_pwl_calibration.py', '      and keypoint_output_parameters.shape[1] not in (1, units)', '      and keypoint_output_parameters.shape[1] != units', 'V8', 'validator rejects the broadcast unit axis'),
     ('C15', 'conditional_pwl_calibration.py', '      and keypoint_output_parameters.shape[1] not in (1, units)', '      and keypoint_output_parameters.shape[1] not in (units, 1)', None, 'N: membership tuple reordered'),
     ('C10', 'pwl_calibration_lib.py', '        keypoints[:num_keypoints], shape=[num_keypoints, 1], dtype=dtype)', '        keypoints, shape=[num_keypoints, 1], dtype=dtype)', 'I4', 'all keypoints for a cyclic kernel'),
+    ('C14', 'cdf_layer.py', '          tf.nn.relu6(self.input_scaling * (x - self.kernel)), axis=2) / 6', '          tf.nn.relu6(self.input_scaling * (x - self.kernel)), axis=2) / 5', 'Y1', 'layer divides the relu6 mean by 5'),
+    ('C14', 'conditional_cdf.py', '    result = tf.reshape(result, (-1, input_dim // sparsity_factor, units))', '    result = tf.reshape(result, (-1, units // sparsity_factor, units))', 'Y1', 'functional form reshapes with the wrong middle dimension'),
+    ('C14', 'conditional_cdf.py', '    result = tf.reshape(result, (-1, input_dim // sparsity_factor, units))', '    result = tf.reshape(result, [-1, input_dim // sparsity_factor, units])', None, 'N: list instead of tuple'),
+    ('C14', 'parallel_combination_layer.py', 'zip(self.calibration_layers, inputs)', 'zip(self.calibration_layers, reversed(inputs))', 'Y3', 'calibrators applied to the columns in reverse'),
+    ('C14', 'conditional_pwl_calibration.py', '  weights = tf.clip_by_value(weights, 0.0, 1.0)', '  weights = tf.clip_by_value(weights, 0.0, 2.0)', 'Y2', 'functional weights clipped at 2'),
+    ('C14', 'cdf_layer.py', 'tf.nn.sigmoid(self.input_scaling * (x - self.kernel)), axis=2)', 'tf.nn.sigmoid(self.input_scaling * (x + self.kernel)), axis=2)', 'Y1', 'layer adds the location'),
+    ('C09', 'cdf_layer.py', '          result, [-1, int(input_dim // self.sparsity_factor), self.units])', '          result, [-1, int(self.units // self.sparsity_factor), self.units])', 'Y1', 'layer reshape absorbs the mismatch in the batch axis'),
+    ('C08', 'lattice_lib.py', '        if (constraint_group[0] >= lattice_sizes[dominant_dim] - 1 or\n            constraint_group[1] >= lattice_sizes[weak_dim] - 1):\n          continue\n\n        rolled_back_weights = weights - last_change[\n            ("MONOTONIC_DOMINANCE"',
+     '        if (constraint_group[0] >= lattice_sizes[weak_dim] - 1 or\n            constraint_group[1] >= lattice_sizes[dominant_dim] - 1):\n          continue\n\n        rolled_back_weights = weights - last_change[\n            ("MONOTONIC_DOMINANCE"', 'L3s', 'dominance group guard with swapped sizes'),
+    ('C08', 'lattice_lib.py', '      is_first_part = (i < lattice_sizes[dimension] // 2)', '      is_first_part = (i < (lattice_sizes[dimension] + 1) // 2)', 'O3', 'unimodal split one vertex late on odd sizes'),
     ('C17', 'premade_lib.py', '        # going out of bound on the lattice\n        addition_score = -2.0',
      '        # going out of bound on the lattice\n        addition_score = -1.0', 'W7', 'full lattice ties with a repeat'),
     ('C17', 'premade_lib.py', '        # going out of bound on the lattice\n        addition_score = -2.0',
